@@ -194,13 +194,18 @@ pub struct LockSpec {
     pub duration: u64,
     /// None: no identifier; Some(k): explicit identifier "lk<k>" (re-used identifiers expand)
     pub id: Option<u8>,
+    /// name an EXISTING position by its full identifier instead (anybody's: the sender's own must be
+    /// expanded, somebody else's must be refused)
+    #[serde(default)]
+    pub existing: Option<u16>,
 }
 pub fn lock_strat() -> impl Strategy<Value = LockSpec> {
     (
         prop_oneof![6 => 86_400u64..=31_556_926, 1 => Just(86_400u64), 1 => Just(31_556_926u64), 1 => 0u64..86_400],
         proptest::option::weighted(0.6, 0u8..4),
+        proptest::option::weighted(0.3, any::<u16>()),
     )
-        .prop_map(|(duration, id)| LockSpec { duration, id })
+        .prop_map(|(duration, id, existing)| LockSpec { duration, id, existing })
 }
 
 #[derive(Debug, Clone, Serialize, Deserialize, PartialEq)]
@@ -245,6 +250,8 @@ pub enum Bad {
     ToggleUnknownPool,
     CreateUnderpaid { user: u8 },
     CreateOverpaid { user: u8 },
+    /// creation paying some other combination of the fee amounts (k selects it)
+    CreateOddFunds { user: u8, k: u8 },
     OwnershipByStranger { user: u8 },
 }
 
@@ -337,6 +344,8 @@ pub fn bad_strat() -> impl Strategy<Value = Bad> {
         Just(Bad::ToggleUnknownPool),
         user().prop_map(|user| Bad::CreateUnderpaid { user }),
         user().prop_map(|user| Bad::CreateOverpaid { user }),
+        (user(), 0u8..8).prop_map(|(user, k)| Bad::CreateOddFunds { user, k }),
+        (user(), 0u8..8).prop_map(|(user, k)| Bad::CreateOddFunds { user, k }),
         user().prop_map(|user| Bad::OwnershipByStranger { user }),
     ]
 }
